@@ -549,7 +549,38 @@ fn try_gen(rng: &mut StdRng, o: &GenOpts) -> Option<Case> {
     // string columns flowing through mutual recursion are excluded above; make
     // sure no integer comparison touches a string column that was only
     // discovered later (forward references to higher IDBs have no strings).
-    let q = idbs.last().unwrap().clone();
+    let mut q = idbs.last().unwrap().clone();
+    // The server turns `?p(1, Y)` into `__query__(_c0, Y) <- p(_c0, Y), _c0 = 1`; that
+    // form (and only that form) triggers the magic-sets rewriting for bound
+    // recursive queries.
+    if rng.gen_bool(0.3) {
+        let target = q.clone();
+        let ar = arity[&target];
+        let mut args = vec![];
+        let mut body_extra = vec![];
+        let names = ["X", "Y", "Z"];
+        // an avg column is a float (compared with a tolerance): never bound to a constant
+        let has_avg = clauses.iter().any(|c| c.hr == target && c.ha.iter().any(|t| matches!(t, Term::Agg(f, _) if f == "avg")));
+        for i in 0..ar {
+            if !has_avg && rng.gen_bool(0.45) {
+                let v = format!("_c{i}");
+                let c = if idb_str.contains(&(target.clone(), i)) {
+                    V::S(["a", "b"][rng.gen_range(0..2)].to_string())
+                } else {
+                    V::I(rng.gen_range(0..o.dom))
+                };
+                body_extra.push(Lit::Cmp("=".into(), Expr::T(Term::Var(v.clone())), Expr::T(Term::Const(c))));
+                args.push(Term::Var(v));
+            } else {
+                args.push(Term::Var(names[i].to_string()));
+            }
+        }
+        let mut body = vec![Lit::Pos(target, args.clone())];
+        body.extend(body_extra);
+        clauses.push(Clause { hr: "__query__".into(), ha: args, body });
+        arity.insert("__query__".into(), ar);
+        q = "__query__".into();
+    }
     let edb = gen_edb(rng, o, &arity, &strcols);
     Some(Case { clauses, q, edb, arity })
 }
